@@ -157,6 +157,7 @@ P = ScenarioProperty(
     PROP,
     {
         "levels": (2, 3),
+        "mahalanobis": True, "cma_weight": 3,
         "extra": S_EXTRA, "second_run": True,
         "families": ["step", "constant", "sphere", "rastrigin", "twobasin", "linear", "offset"],
         "sprout_kinds": ["simple", "nbc", "composed", "composed", "composed"],
